@@ -1,6 +1,6 @@
 (* C16 -- the two wiring representations and the routing derived from them agree.
    Property theorems only. Connections are 4-tuples (out comp, out port, in comp, in port). *)
-From TV Require Import Base Model.Wiring Proofs.WiringP.
+From TV Require Import Base Model.Wiring Proofs.WiringP Model.PyLib Gen.SourceFuns Proofs.GenWiringP.
 
 (* inverse wiring -> wiring: exactly the same connections, none lost, none invented
    (any inverse wiring, no side condition) *)
@@ -64,3 +64,16 @@ Example C16_example :
   dependants (conns_iw iw) 5%positive = Some [5%positive] /\
   sort_pos (components_w (from_inverse iw)) = [1; 2; 3; 4; 5]%positive.
 Proof. vm_compute. repeat split; reflexivity. Qed.
+
+(* the tie to the source: the two conversions of the model ARE Wiring.from_inverse_wiring / InverseWiring.from_wiring, and
+   routing along the flat connection list IS EventRouter.route on the wiring dictionaries (association lists with unique
+   keys, as Python dictionaries are) -- the left-hand sides are regenerated from /repo by the function translator
+   (harness/gen_funs.py) on every run *)
+Theorem C16_conversions_are_source : forall (iw : iwiring) (w : wiring),
+  gen_from_inverse_wiring iw = from_inverse iw /\ gen_from_wiring w = from_wiring w.
+Proof. intros iw w. split; [apply from_inverse_wiring_is_source | apply from_wiring_is_source]. Qed.
+
+Theorem C16_route_is_source : forall (w : wiring) (src : comp) (changes : list (port * Z)),
+  NoDup (keys w) -> (forall e, In e w -> NoDup (keys (snd e))) ->
+  gen_route w src changes = route (conns_w w) src changes.
+Proof. exact route_is_source. Qed.
